@@ -123,6 +123,11 @@ def run(c, chk):
     untitled_does_not_end_search(c, chk, ex)
     unique_titles(c, chk, ex)
     typed_members(c, chk, 'R9.10')
+    # R9.11: the store answers by the text it is given, not by what an earlier refused call left in errno
+    from . import c08 as _c08
+    chk.rule('R9.11', 'no decision of the bulk/text setters reads errno unless a value was stored into it first on that path (an earlier refused number does not make the next valid one fail)')
+    if not _c08.errno_reads(c, _c08.chk_proxy(chk, {'R8.6': 'R9.11'}), 'R8.6', funcs={'cfg_setopt', 'cfg_opt_setmulti', 'cfg_setmulti'}):
+        chk.ok('R9.11', 'text setters', 'none of them reads errno', nontrivial=False)
 
     # ---- R9.3 --------------------------------------------------------------------------------
     sites = title_sites(c, ex)
